@@ -16,7 +16,7 @@ ASSUMPTIONS = [
     "per-key three-way rule: a path takes the side that changed it, or the common value when both agree; otherwise conflict",
 ]
 MONITORS = "outcome of tree._merge / tree.merge compared with an independent per-key three-way merge"
-REQUIRED_COUNTERS = ["common_deletion_cases", "sides_derived_from_loaded_ancestor", "non_canonical_stored_listings", "policy_sequences", "ancestor_unavailable_cases", "merge_calls", "accepted", "refused", "order_pairs_compared", "merge_via_store"]
+REQUIRED_COUNTERS = ["merges_of_listings_with_another_hash_name", "common_deletion_cases", "sides_derived_from_loaded_ancestor", "non_canonical_stored_listings", "policy_sequences", "ancestor_unavailable_cases", "merge_calls", "accepted", "refused", "order_pairs_compared", "merge_via_store"]
 EXHAUSTIVE = {"quick": True, "thorough": True}
 
 POLICIES = [None, ["add"], ["add", "remove"], ["add", "change"], ["add", "remove", "change"]]
@@ -226,7 +226,19 @@ def run_shard(ctx):
                     del s_[rng.choice(["data", "data/new"])]
                 return s_
 
+            # the listings' entries may carry their digests under another hash name (cloud etags) than the store's own algorithm
+            ename = "etag" if rng.random() < 0.15 else "md5"
+            if ename != "md5":
+                res.count("merges_of_listings_with_another_hash_name")
+
             def mk(listing):
+                if ename != "md5":
+                    t = Tree()
+                    for rel, dg in listing.items():
+                        t.add(tuple(rel.split("/")), Meta(size=3), HashInfo(ename, dg))
+                    t.digest()
+                    odb.add(t.path, t.fs, t.oid)
+                    return t.hash_info
                 if listing and rng.random() < 0.25:
                     # a legal directory object in a non-canonical layout (other entry order / separators), filed under the
                     # digest of its own bytes - what another tool or an older version may have written
@@ -296,7 +308,7 @@ def run_shard(ctx):
             a_hi = mk(anc) if with_anc else None
 
             def mk_side(listing):
-                if with_anc and anc and all(k in listing for k in anc) and rng.random() < 0.5:
+                if ename == "md5" and with_anc and anc and all(k in listing for k in anc) and rng.random() < 0.5:
                     # the side is derived the way an application would: load the ancestor's object, add / replace entries, store the result
                     t = Tree.load(odb, a_hi)
                     for rel, dg in listing.items():
@@ -369,7 +381,11 @@ def run_shard(ctx):
                 res.violation("policy-breach/store/" + ("default" if pol is None else "+".join(pol)),
                               f"merge() accepted a both-sides merge although a side did {sorted((oo | to) - allowed)}", case=case,
                               detail={"anc": anc, "ours": ours, "theirs": theirs, "policy": pol})
-            if merged.hash_info.value != canonical_dir_oid(got) or merged.oid != merged.hash_info.value:
+            if ename != "md5":
+                names_ = {hi.name for _k, _m, hi in merged}
+                if names_ - {ename}:
+                    res.violation("wrong-result/store/hash-name-of-entries-changed", f"entries of the merged listing carry {sorted(names_)} instead of {ename}", case=case, detail={"policy": pol})
+            elif merged.hash_info.value != canonical_dir_oid(got) or merged.oid != merged.hash_info.value:
                 res.violation("merged-oid-not-canonical", "merged listing's identifier is not the canonical oid of its content",
                               case=case, detail={"got": merged.hash_info.value, "expected": canonical_dir_oid(got)})
             ctx.drop(d)
